@@ -88,6 +88,30 @@ func nextKey(p *smPath) string {
 	return p.Next
 }
 
+// specialSchemeAlias: (*Url).IsSpecialScheme() is `return u.isSpecialScheme(u.scheme)`.
+func specialSchemeAlias(c *Ctx) bool {
+	return c.Memo("specialSchemeAlias", func() interface{} {
+		f := c.P.Func("url", "Url", "IsSpecialScheme")
+		if f == nil || len(f.Blocks) != 1 {
+			return false
+		}
+		ret, ok := f.Blocks[0].Instrs[len(f.Blocks[0].Instrs)-1].(*ssa.Return)
+		if !ok || len(ret.Results) != 1 {
+			return false
+		}
+		call, ok := ret.Results[0].(*ssa.Call)
+		if !ok {
+			return false
+		}
+		cl := call.Common().StaticCallee()
+		if cl == nil || cl.Name() != "isSpecialScheme" || len(call.Common().Args) != 2 || call.Common().Args[0] != ssa.Value(f.Params[0]) {
+			return false
+		}
+		x, ok := loadOfField(call.Common().Args[1], "Url:scheme")
+		return ok && x == ssa.Value(f.Params[0])
+	}).(bool)
+}
+
 func init() {
 	register(&Rule{
 		Name:  "SM-inherit",
@@ -901,6 +925,16 @@ func init() {
 				for n, t := range g.Atoms {
 					names = append(names, n)
 					byText[t] = n
+					// the exported predicate and its unexported form are one atom when the one returns the other's answer
+					// for the URL's own scheme (read off the method's SSA)
+					if specialSchemeAlias(c) {
+						switch {
+						case strings.Contains(t, "url.IsSpecialScheme()"):
+							byText[strings.Replace(t, "url.IsSpecialScheme()", "url.isSpecialScheme(url.scheme)", 1)] = n
+						case strings.Contains(t, "url.isSpecialScheme(url.scheme)"):
+							byText[strings.Replace(t, "url.isSpecialScheme(url.scheme)", "url.IsSpecialScheme()", 1)] = n
+						}
+					}
 				}
 				sort.Strings(names)
 				obsKind, obsField := g.Observe, ""
